@@ -89,6 +89,16 @@ def run(chk):
                 pass
             return m
         m = SSPOR(n_sensors=5)
+        if stage == 4:
+            # a model with a past: fitted on WIDER data first, then handed a basis fitted beforehand on X and refitted through
+            # prefit_basis=True - its limits are those of the data it is fitted on NOW (nf sensors), as for stage 1
+            from pysensors.basis import Identity as _Identity
+            impl.quiet(m.fit, np.hstack([X, X[:, :6] * 0.5 + 1.0]), quiet=True, seed=1)
+            b_ = _Identity()
+            impl.quiet(b_.fit, X)
+            m.basis = b_
+            impl.quiet(m.fit, X, quiet=True, prefit_basis=True, seed=1)
+            return m
         if stage >= 1:
             impl.quiet(m.fit, X, quiet=True, seed=1)
         if stage >= 2:
@@ -99,9 +109,9 @@ def run(chk):
     # ---- SSPOR
     for v in values(nf):
         rows.append((f"SSPOR(n_sensors={v})", f"g_sspor_ctor {coq_pv(v)}", lambda v=v: SSPOR(n_sensors=pyv(v)), True))
-    for stage in (0, 1, 2, 3):
-        fitted = "true" if stage in (1, 2) else "false"
-        ns = 5 if stage < 2 else 4
+    for stage in (0, 1, 2, 3, 4):
+        fitted = "true" if stage in (1, 2, 4) else "false"
+        ns = 4 if stage in (2, 3) else 5
         have = 0 if stage == 0 else nrows
         for v in values(nf):
             for setter in ("set_number_of_sensors", "set_n_sensors"):
@@ -290,6 +300,8 @@ def run(chk):
         if "predict" in o:
             o["predict"] = np.array(o["predict"]).tolist()
         return o
+    for v in values(nf):
+        rejected_noop(f"SSPOR.set_number_of_sensors({v})@4", lambda: sspor_at(4), lambda m, v=v: m.set_number_of_sensors(pyv(v)), obs_sspor)
     for stage in (1, 2):
         for v in values(nf):
             rejected_noop(f"SSPOR.set_number_of_sensors({v})@{stage}", lambda stage=stage: sspor_at(stage), lambda m, v=v: m.set_number_of_sensors(pyv(v)), obs_sspor)
